@@ -34,6 +34,16 @@ type limitsRec struct {
 	Want   string              `json:"want"`
 	VClass string              `json:"vclass"`
 	Desc   string              `json:"desc"`
+	// family "place" (limits_place.go): where the bulk of the bytes is, the bytes without the unsigned member,
+	// how the event reaches the operation, the bytes before SetUnsigned / Sign, the second admissible outcome
+	// (equal to want except for a receipt that is over the limit only with the member the receiver drops), and
+	// what CheckFields says before SetUnsigned / Sign
+	Place  string `json:"place"`
+	Proper int    `json:"proper"`
+	Via    string `json:"via"`
+	Base   int    `json:"base"`
+	Alt    string `json:"alt"`
+	Pre    string `json:"pre"`
 }
 
 func init() {
@@ -116,8 +126,9 @@ func fakeID(n, length int) string {
 //     re-parses the redacted form;
 //   - mismatch_same: empty content, no origin key, a wrong hash value: redaction leaves the JSON as it is.
 //
-// Size scenarios grow the event through auth_events (kept by redaction) until the JSON named by
-// r.SizeOf (received / surviving / both) has exactly r.Size bytes.
+// Size scenarios grow the event through auth_events (or, family "place" with the bulk in prev_events, through
+// that list; redaction keeps both) until the JSON named by r.SizeOf (received / surviving / both) has exactly
+// r.Size bytes.
 func mismatchInputs(r limitsRec, v gmsl.IRoomVersion, f evFields, built gmsl.PDU) []input {
 	spoil := func(signed []byte) []byte {
 		if r.Hash == "mismatch" {
@@ -127,7 +138,11 @@ func mismatchInputs(r limitsRec, v gmsl.IRoomVersion, f evFields, built gmsl.PDU
 	}
 	make1 := func(auth []string) []byte {
 		g := f
-		g.Auth = auth
+		if r.Place == "prev_events" {
+			g.Prev = auth
+		} else {
+			g.Auth = auth
+		}
 		g.Content = json.RawMessage(`{}`)
 		g.NoOrigin = r.Hash == "mismatch_same"
 		return spoil(handSigned(r.Ver, v, g))
@@ -168,7 +183,11 @@ func mismatchInputs(r limitsRec, v gmsl.IRoomVersion, f evFields, built gmsl.PDU
 	if r.Hash == "mismatch" && survivingLen(v, in) >= len(in) {
 		fatalf("concretiser: mismatch event of version %s does not shrink under redaction", r.Ver)
 	}
-	return []input{{fmt.Sprintf("hand-signed JSON, hash %s, %d auth_events", r.Hash, len(auth)), in}}
+	list := "auth_events"
+	if r.Place == "prev_events" {
+		list = "prev_events"
+	}
+	return []input{{fmt.Sprintf("hand-signed JSON, hash %s, %d %s", r.Hash, len(auth), list), in}}
 }
 
 // relevantClass names the version class only where it can matter: the room ID of versions with domainless
@@ -203,6 +222,9 @@ func limitsReplay(raw json.RawMessage) hx.Result {
 			fatalf("create-with-room_id scenario for version %s path %s", r.Ver, r.Path)
 		}
 		f.Type, f.StateKey, f.Sender = "m.room.create", strp(""), creator
+	}
+	if r.Fam == "place" {
+		return placeReplay(r, v, f)
 	}
 	body := func(n int) interface{} { return map[string]string{"body": strings.Repeat("x", n)} }
 	f.Content = body(0)
